@@ -32,8 +32,13 @@ def scalars(c, rnd, quick, ecdsa):
     # scalars that put base64 text looking like a PEM boundary keyword at the start of a 64-character body line: the DER bytes at
     # an offset that is a multiple of 48 spell "END..." (10 D0 C0) or "BEGIN" (04 41 88 34)
     for fmt in ("ssleay", "pkcs8"):
-        probe = SigningKey.from_secret_exponent(1, c).to_der(format=fmt)
-        off = probe.index(b"\x00" * (l - 1) + b"\x01")
+        try:
+            probe = SigningKey.from_secret_exponent(1, c).to_der(format=fmt)
+        except BaseException:  # noqa  (reported by the serialisation events themselves)
+            continue
+        off = probe.find(b"\x00" * (l - 1) + b"\x01")
+        if off < 0:
+            continue            # the scalar is not where the standard puts it: decided byte for byte by KeyTrace below
         for pat in (b"\x10\xd0\xc0", b"\x04\x41\x88\x34"):
             for line in range(48, off + l - len(pat) + 1, 48):
                 if line >= off:
